@@ -25,28 +25,49 @@ fn dialects() -> [(&'static str, Option<PR>, PR, PO); 2] {
 fn check_stream(acc: &mut Acc, sub: &str, rank: u64, text: &[u8], po: &PO, expected: &[RV], what: &str) {
     acc.evals += 1;
     let o = po.to_lexpr();
-    let mut p = Parser::from_slice_custom(text, o);
-    let items = drive(&mut p, Style::NextValue, expected.len() + 2, true);
-    let mut ok = items.len() == expected.len() + 1 && items.last() == Some(&Item::End);
-    if ok {
-        for (it, e) in items.iter().zip(expected.iter()) {
-            match it {
-                Item::Val(g) => {
-                    if cmp_roundtrip(e, g).is_err() {
-                        ok = false;
-                    }
+    // the clause holds for every input source
+    for src in 0..3 {
+        let items = match src {
+            0 => {
+                let mut p = Parser::from_slice_custom(text, o);
+                drive(&mut p, Style::NextValue, expected.len() + 2, true)
+            }
+            1 => {
+                let mut p = Parser::from_reader_custom(text, o);
+                drive(&mut p, Style::NextValue, expected.len() + 2, true)
+            }
+            _ => match std::str::from_utf8(text) {
+                Ok(s) => {
+                    let mut p = Parser::from_str_custom(s, o);
+                    drive(&mut p, Style::NextValue, expected.len() + 2, true)
                 }
-                _ => ok = false,
+                Err(_) => continue,
+            },
+        };
+        let mut ok = items.len() == expected.len() + 1 && items.last() == Some(&Item::End);
+        if ok {
+            for (it, e) in items.iter().zip(expected.iter()) {
+                match it {
+                    Item::Val(g) => {
+                        if cmp_roundtrip(e, g).is_err() {
+                            ok = false;
+                        }
+                    }
+                    _ => ok = false,
+                }
             }
         }
-    }
-    acc.outcome(&(items.len(), ok));
-    if !ok {
-        let kind = if items.iter().any(|i| matches!(i, Item::Err(_))) { "stream-rejected" } else { "stream-differs" };
-        let exp_s: Vec<String> = expected.iter().map(|e| trunc(&e.to_string(), 60)).collect();
-        let (h, pi) = (hex(text), po.index());
-        let ex: Vec<String> = expected.iter().map(|e| e.to_string()).collect();
-        acc.violation(sub, kind, &format!("{}:{}", kind, what), rank, format!("text={:?} opts=[{}]", trunc(&show_bytes(text), 160), po.describe()), format!("expected {} then end of input; got {}", exp_s.join(" | "), show_items(&items)), || json!({"input_hex": h, "po": pi, "expected": ex}));
+        if src == 0 {
+            acc.outcome(&(items.len(), ok, expected.iter().map(|e| std::mem::discriminant(e)).collect::<Vec<_>>()));
+        }
+        if !ok {
+            let srcname = ["slice", "reader", "str"][src];
+            let kind = if items.iter().any(|i| matches!(i, Item::Err(_))) { "stream-rejected" } else { "stream-differs" };
+            let exp_s: Vec<String> = expected.iter().map(|e| trunc(&e.to_string(), 60)).collect();
+            let (h, pi) = (hex(text), po.index());
+            let ex: Vec<String> = expected.iter().map(|e| e.to_string()).collect();
+            acc.violation(sub, kind, &format!("{}:{}:{}", kind, what, srcname), rank, format!("source={} text={:?} opts=[{}]", srcname, trunc(&show_bytes(text), 160), po.describe()), format!("expected {} then end of input; got {}", exp_s.join(" | "), show_items(&items)), || json!({"input_hex": h, "po": pi, "expected": ex}));
+        }
     }
 }
 
@@ -199,15 +220,22 @@ pub fn replay(sub: &str, case: &J, acc: &mut Acc) {
             check_histories(acc, 0, &input, &po, src, case["depth"].as_u64().unwrap_or(4) as usize);
         }
         _ => {
-            // stream checks: re-parse and compare with the recorded expectation through the reference reader
+            // stream checks: re-parse from every source and compare with the recorded expectation
             let o = po.to_lexpr();
-            let mut p = Parser::from_slice_custom(&input, o);
             let n = case["expected"].as_array().map(|a| a.len()).unwrap_or(0);
-            let items = drive(&mut p, Style::NextValue, n + 2, true);
-            let got: Vec<String> = items.iter().filter_map(|i| if let Item::Val(v) = i { Some(v.to_string()) } else { None }).collect();
             let want: Vec<String> = case["expected"].as_array().map(|a| a.iter().map(|x| x.as_str().unwrap_or("").to_string()).collect()).unwrap_or_default();
-            if got != want || items.last() != Some(&Item::End) {
-                acc.violation(sub, "stream-differs", "stream-differs", 0, format!("text={:?}", show_bytes(&input)), format!("expected {:?}, got {}", want, show_items(&items)), || case.clone());
+            for src in 0..2 {
+                let items = if src == 0 {
+                    let mut p = Parser::from_slice_custom(&input, o);
+                    drive(&mut p, Style::NextValue, n + 2, true)
+                } else {
+                    let mut p = Parser::from_reader_custom(&input[..], o);
+                    drive(&mut p, Style::NextValue, n + 2, true)
+                };
+                let got: Vec<String> = items.iter().filter_map(|i| if let Item::Val(v) = i { Some(v.to_string()) } else { None }).collect();
+                if got != want || items.last() != Some(&Item::End) {
+                    acc.violation(sub, "stream-differs", "stream-differs", 0, format!("source={} text={:?}", ["slice", "reader"][src], show_bytes(&input)), format!("expected {:?}, got {}", want, show_items(&items)), || case.clone());
+                }
             }
         }
     }
